@@ -1,6 +1,8 @@
 """C08 (kernel level) — the sparse merge kernels of pynndescent/sparse.py against the Lean
 model `Model/Sparse.lean` (driver commands sp-sum, sp-diff, sp-mul, sp-dot, dense-union,
-arr-union, arr-intersect, isect-size, sp-metric) and against their specification.
+arr-union, arr-intersect, isect-size, sp-metric) and against their specification; and the
+TRANSLATED kernels of `Gen/Kernels.lean` (driver commands gk_sum, gk_mul, gk_dot, gk_isect) against
+the real numba kernels (validation of harness/translate_kernels.py, see GK below).
 
 Inputs are pairs of well-formed sparse rows (strictly increasing int32 indices, non-zero
 small-integer float32 values), so every float32 operation of the kernels is exact and the
@@ -55,6 +57,25 @@ MERGE = [
     ("fast_intersection_size", "isect-size"),
 ]
 INDEX_ONLY = {"arr_union", "arr_intersect", "fast_intersection_size"}
+
+# TRANSLATED kernels: Gen/Kernels.lean is regenerated from the source text of sparse.py by
+# harness/translate_kernels.py on every `check` run and Props/C08.lean proves, for every input, that each of
+# these four translated kernels returns what the hand-written model returns (kernel_*_refines).  What those
+# theorems trust is the translator; it is validated here by EXECUTING its output (driver commands gk_*,
+# Driver/GenM.lean) on every case and comparing it exactly with the real numba kernel
+# (`res.corr_fail("translated-kernel:<kernel>", ...)`).
+GK = [
+    ("sparse_sum", "gk_sum"),
+    ("sparse_mul", "gk_mul"),
+    ("sparse_dot_product", "gk_dot"),
+    ("fast_intersection_size", "gk_isect"),
+]
+GK_NOTE = ("translated kernels (Gen/Kernels.lean, regenerated from sparse.py's source text) are executed by the driver "
+           "(gk_sum, gk_mul, gk_dot, gk_isect) on every case and compared exactly with the real numba kernels "
+           "(translated-kernel:<kernel>; hist translated:*), additionally on rows that are NOT well formed (unsorted, "
+           "duplicate indices, stored zeros: the refinement theorems need no sortedness) - there only translated vs numba, "
+           "no property predicate; sparse_dot_product with an empty operand: the translated kernel must answer 'oob', "
+           "the real one is not called")
 
 METRICS = ["sqeuclidean", "manhattan", "chebyshev", "hamming", "jaccard", "matching", "dice",
            "kulsinski", "rogerstanimoto", "russellrao", "sokalmichener", "sokalsneath",
@@ -233,7 +254,69 @@ def driver_lines(case, with_metrics):
             lines.append(cmd4("sp-metric %s %d" % (name, case["dim"]), case))
         for _, op in PARTS:
             lines.append(cmd4("sp-metric %s %d" % (op, case["dim"]), case))
+    lines.extend(gk_lines(case))          # always last (check_case reads them from the end)
     return lines
+
+
+def gk_lines(case):
+    return [cmd2(op, case) if kern in INDEX_ONLY else cmd4(op, case) for kern, op in GK]
+
+
+def check_translated(res, pub, empty_operand, impls, tlines):
+    """translated kernel (driver) == real numba kernel, exactly; impls: kernel -> canonical real output"""
+    ok = True
+    for (kern, op), tline in zip(GK, tlines):
+        if kern == "sparse_dot_product" and empty_operand:
+            res.count("translated:dot_oob_on_empty_operand")
+            if tline.strip() != "oob":
+                res.corr_fail("translated-kernel:" + kern, pub, tline, "not called (empty operand: out-of-bounds read)")
+                ok = False
+            continue
+        trans = parse_int(tline) if kern in ("sparse_dot_product", "fast_intersection_size") else parse_groups(tline)
+        res.count("translated:compared")
+        if trans != impls[kern]:
+            res.corr_fail("translated-kernel:" + kern, pub, trans, impls[kern])
+            ok = False
+    return ok
+
+
+UNCHECKED_POOL = [-3, -2, -1, 0, 0, 1, 2, 3]
+
+
+def gen_unchecked(rng, i):
+    """rows that are NOT well formed: unsorted, duplicate indices, stored zeros (small index range: many ties)"""
+    dim = rng.choice([2, 3, 4, 6, 9])
+    def row():
+        n = rng.choice([0, 1, 1, 2, 3, 4, 5, 7])
+        ind = [rng.randrange(dim) for _ in range(n)]
+        if rng.randrange(3) == 0:
+            ind.sort()                    # sorted with duplicates
+        return ind, [rng.choice(UNCHECKED_POOL) for _ in ind]
+    s1, v1 = row()
+    s2, v2 = row()
+    return mk_case(dim, s1, v1, s2, v2, "unchecked")
+
+
+def run_unchecked(res, rng, n):
+    """translated vs numba only, on ill-formed rows (no model, no property predicate: the property is about
+    well-formed rows)"""
+    cases = [gen_unchecked(rng, i) for i in range(n)]
+    lines = []
+    for c in cases:
+        lines.extend(gk_lines(c))
+    outs = run_driver(lines) if lines else []
+    ok = True
+    for k, c in enumerate(cases):
+        A = arrays(c)
+        empty_operand = len(c["ind1"]) == 0 or len(c["ind2"]) == 0
+        impls = {}
+        for kern, _ in GK:
+            if kern == "sparse_dot_product" and empty_operand:
+                continue
+            impls[kern] = impl_merge(kern, A, res)[0]
+        ok = check_translated(res, public(c), empty_operand, impls, outs[k * len(GK):(k + 1) * len(GK)]) and ok
+    res.count("translated:unchecked_rows", n)
+    return ok
 
 
 def parse_groups(line):
@@ -485,6 +568,7 @@ def check_case(res, case, out_lines, with_metrics):
     res.count("gen:" + case["gen"])
     empty_operand = len(case["ind1"]) == 0 or len(case["ind2"]) == 0
     stats = {}
+    impls = {}
     ok = True
     for k, (kern, op) in enumerate(MERGE):
         mline = out_lines[k]
@@ -500,6 +584,7 @@ def check_case(res, case, out_lines, with_metrics):
         else:
             model = parse_groups(mline)
         impl, raw = impl_merge(kern, A, res)
+        impls[kern] = impl
         if impl != model:
             res.corr_fail("sparse_merge:" + kern, pub, model, impl)
             ok = False
@@ -530,7 +615,8 @@ def check_case(res, case, out_lines, with_metrics):
     if stats.get("dense_union_cancel"):
         res.count("dense_union:cancelled_coordinate_dropped")
     if with_metrics:
-        check_metrics(res, case, A, out_lines[len(MERGE):])
+        check_metrics(res, case, A, out_lines[len(MERGE):len(out_lines) - len(GK)])
+    ok = check_translated(res, pub, empty_operand, impls, out_lines[len(out_lines) - len(GK):]) and ok
     common = set(case["ind1"]) & set(case["ind2"])
     only = set(case["ind1"]) ^ set(case["ind2"])
     nontrivial = (not empty_operand) and len(common) >= 1 and len(only) >= 1
@@ -561,7 +647,8 @@ def run_kernels(res, rng, n_cases):
     all_ok = True
     for c, (s, n, wm) in zip(cases, spans):
         all_ok = check_case(res, c, outs[s:s + n], wm) and all_ok
-    for note in (DOT_NOTE, FIS_NOTE):
+    all_ok = run_unchecked(res, rng, n_cases) and all_ok
+    for note in (DOT_NOTE, FIS_NOTE, GK_NOTE):
         if note not in res.notes:
             res.notes.append(note)
     return all_ok
